@@ -2,6 +2,7 @@ package bus
 
 import (
 	"bytes"
+	"sync"
 	"time"
 
 	"github.com/lugu/qiloop/bus/net"
@@ -23,7 +24,11 @@ type Channel interface {
 // server.
 type channel struct {
 	capability CapabilityMap
-	endpoint   net.EndPoint
+	// capabilityMutex protects the authentication state of
+	// capability: it is read for each incoming message while the
+	// authentication service updates it.
+	capabilityMutex sync.RWMutex
+	endpoint        net.EndPoint
 }
 
 // NewChannel retuns a channel
@@ -77,11 +82,15 @@ func (c *channel) Authenticate() error {
 
 // Authenticated returns true if the connection is authenticated.
 func (c *channel) Authenticated() bool {
+	c.capabilityMutex.RLock()
+	defer c.capabilityMutex.RUnlock()
 	return c.capability.Authenticated()
 }
 
 // SetAuthenticated marks the context as authenticated.
 func (c *channel) SetAuthenticated() {
+	c.capabilityMutex.Lock()
+	defer c.capabilityMutex.Unlock()
 	c.capability.SetAuthenticated()
 }
 
